@@ -56,7 +56,7 @@ Proof. intros s. apply flag_agrees. apply inv_reachable. Qed.
 (* no EPOLLOUT busy loop: after the poller handled a writability event on an empty queue nothing is deliverable (D32) *)
 Theorem c04_no_idle_spin md r0 l :
   let s := run md r0 l in
-  closed s = false -> dial s = false -> pw s = WNone -> q s = 0 -> deliverable_out md s false = true ->
+  closed s = false -> dial s = false -> pw s = WNone -> prd s = false -> q s = 0 -> deliverable_out md s false = true ->
   deliverable_out md (handle_out md s) false = false.
 Proof. intros s. apply no_idle_spin. apply inv_reachable. Qed.
 
